@@ -213,20 +213,21 @@ theorem store_spec {d : Doc V E} {filt : Nat → List Nat} {a : Nat → Nat → 
 /-- what a correct `get` does for every reference of rank below `n` -/
 def GetSpec (d : Doc V E) (filt : Nat → List Nat) (rank : Nat → Nat)
     (getF : List Nat → St V E → Nat → Nat → Res V E × St V E) (n : Nat) : Prop :=
-  ∀ r, rank r < n → ∀ ch st T, (∀ c ∈ ch, rank r < rank c) → Inv d filt (ans d rank) st →
+  ∀ r, rank r < n → ∀ ch st T, (∀ c ∈ ch, rank r < rank c) → ch.length + rank r < maxNestedGets →
+    Inv d filt (ans d rank) st →
     (getF ch st T r).1 = ans d rank T r ∧ Inv d filt (ans d rank) (getF ch st T r).2
 
 theorem run_spec {d : Doc V E} {filt : Nat → List Nat} {rank : Nat → Nat} (cfg : Cfg)
     {getF : List Nat → St V E → Nat → Nat → Res V E × St V E} {n : Nat}
     (hd : ∀ r fs, d.decode r fs ≠ .oof)
     (hg : GetSpec d filt rank getF n) {p : Prog V E} (hp : Fine filt (fun r' => rank r' < n) p) :
-    ∀ ch st, (∀ c ∈ ch, n ≤ rank c) → Inv d filt (ans d rank) st →
+    ∀ ch st, (∀ c ∈ ch, n ≤ rank c) → ch.length + n ≤ maxNestedGets → Inv d filt (ans d rank) st →
       (run getF d cfg ch st p).1 = canon (ans d rank) d p ∧ Inv d filt (ans d rank) (run getF d cfg ch st p).2 := by
   induction hp with
-  | ret x _ => intro ch st _ hi; exact ⟨rfl, hi⟩
+  | ret x _ => intro ch st _ _ hi; exact ⟨rfl, hi⟩
   | get T r k hr _ ih =>
-    intro ch st hc hi
-    have h1 := hg r hr ch st T (fun c hcm => by have := hc c hcm; omega) hi
+    intro ch st hc hl hi
+    have h1 := hg r hr ch st T (fun c hcm => by have := hc c hcm; omega) (by omega) hi
     simp only [run, canon]
     rcases hq : getF ch st T r with ⟨x, st'⟩
     rw [hq] at h1
@@ -235,15 +236,15 @@ theorem run_spec {d : Doc V E} {filt : Nat → List Nat} {rank : Nat → Nat} (c
     rw [← hx]
     cases x with
     | oof => exact ⟨rfl, hi'⟩
-    | ok v => exact ih _ (by simp) ch st' hc hi'
-    | err e => exact ih _ (by simp) ch st' hc hi'
+    | ok v => exact ih _ (by simp) ch st' hc hl hi'
+    | err e => exact ih _ (by simp) ch st' hc hl hi'
   | data r fs k hf _ ih =>
-    intro ch st hc hi
+    intro ch st hc hl hi
     subst hf
     simp only [run, canon]
     have h1 := dataM_spec (a := ans d rank) cfg hi r
     rw [h1.1]
-    exact ih _ (hd r (filt r)) ch _ hc h1.2
+    exact ih _ (hd r (filt r)) ch _ hc hl h1.2
 
 theorem GetSpec.mono {d : Doc V E} {filt : Nat → List Nat} {rank : Nat → Nat}
     {getF : List Nat → St V E → Nat → Nat → Res V E × St V E} {n m : Nat}
@@ -258,22 +259,23 @@ theorem getM_spec {d : Doc V E} {filt : Nat → List Nat} {rank : Nat → Nat} (
   induction f with
   | zero => intro r hr; omega
   | succ f ih =>
-    intro r hr ch st T hc hi
+    intro r hr ch st T hc hlen hi
     have hnot : r ∉ ch := fun hm => by have := hc r hm; omega
+    have hdeep : ¬ maxNestedGets ≤ ch.length := by omega
     have hR := run_spec cfg wf.dec (ih.mono (by omega : rank r ≤ f)) (wf.body T r) (r :: ch) st
       (by intro c hcm; simp at hcm; rcases hcm with rfl | hcm
           · omega
-          · have := hc c hcm; omega) hi
+          · have := hc c hcm; omega) (by simp only [List.length_cons]; omega) hi
     rw [← ans_eq wf] at hR
     have hC := run_spec cfg wf.dec (ih.mono (by omega : rank r ≤ f)) ((wf.body T r).orLog (wf.relog r)) (r :: ch) st
       (by intro c hcm; simp at hcm; rcases hcm with rfl | hcm
           · omega
-          · have := hc c hcm; omega) hi
+          · have := hc c hcm; omega) (by simp only [List.length_cons]; omega) hi
     rw [show orLog (d.body T r) (d.relog r) = d.compute T r from rfl,
         show canon (ans d rank) d (d.compute T r) = ans d rank T r from by
           rw [ans_eq wf T r]
           exact canon_orLog d _ (wf.body T r) (wf.relog r) (fun T' r' h' => ans_ne_oof wf (rank r) r' T' h') wf.dec] at hC
-    simp only [getM, hnot, if_false]
+    simp only [getM, hnot, hdeep, if_false]
     split
     · -- object cache on
       cases hl : st.obj.lookup r with
